@@ -301,7 +301,7 @@ def run(ctx, deep, model_ok):
         for e in errs:
             ctx.broken.append(('correspondence-broken', 'cigar cases: ' + e))
         for i in bad[:3]:
-            ctx.violation('failing-input', 'the kernels translated from cigar.py (about which Props/C12.v is proved) and '
+            ctx.disagree('the kernels translated from cigar.py (about which Props/C12.v is proved) and '
                           'the running implementation disagree on complement/length of this CIGAR', cases[i],
                           python=py_of(cases[i]))
         ctx.notes['cigars_compared_in_coq'] = n
@@ -332,7 +332,7 @@ def run(ctx, deep, model_ok):
         for e in errs:
             ctx.broken.append(('correspondence-broken', 'link cases: ' + e))
         for i in bad[:3]:
-            ctx.violation('failing-input', 'Model/Link.v and gfapy disagree on from_end/to_end/is_same/is_complement/is_eql/'
+            ctx.disagree('Model/Link.v and gfapy disagree on from_end/to_end/is_same/is_complement/is_eql/'
                           'complement/is_compatible for this pair of links', cases[i], python=py_of(cases[i]))
         ctx.notes['link_pairs_compared_in_coq'] = n
     # ---- graph level
